@@ -214,7 +214,7 @@ Lv0 == [fd |-> 0, enums |-> << >>, members |-> << >>, idbase |-> NoId,
 Chain(k, levels) == [k |-> k, mod |-> "a", lay |-> "top", idents |-> << >>, levels |-> levels]
 \* compiled type
 CT0(k) == [k |-> k, fd |-> 0, parts |-> (IF k \in NumKinds THEN <<WidthOf(k)>> ELSE << >>), rl |-> << >>, lparts |-> <<Part(Zero, MaxLen)>>, ll |-> << >>, pats |-> << >>,
-           enums |-> << >>, acc |-> {}, unj |-> {}, members |-> << >>, hasDef |-> FALSE, def |-> << >>]
+           enums |-> << >>, acc |-> {}, unj |-> {}, members |-> << >>, sub |-> FALSE, hasDef |-> FALSE, def |-> << >>]
 Res(ok, j, why, t) == [ok |-> ok, j |-> j, why |-> why, t |-> t]
 
 RECURSIVE Accepts(_, _)
@@ -238,7 +238,8 @@ AcceptsMech(t, v) ==
 \* is the verdict on v judged at all (forms on which the RFC / the statement is silent are not)
 RECURSIVE ProbeJudged(_, _)
 ProbeJudged(t, v) ==
-  CASE t.k = "identityref" -> v \notin t.unj
+  CASE t.sub -> ~Accepts(t, v)           \* only "the base rejects it, so must the derived type" is prescribed
+    [] t.k = "identityref" -> v \notin t.unj
     [] t.k = "union" -> \A i \in 1..Len(t.members) : ProbeJudged(t.members[i], v)
     [] OTHER -> TRUE
 
@@ -285,8 +286,11 @@ ApplyLevel(ch, t, L, first) ==
                \/ L.members # << >> /\ ~(k = "union" /\ first)
                \/ L.idbase # NoId /\ ~(k = "identityref" /\ first)
       \* forms the statement does not cover: not judged
-      odd == \/ L.fd # 0 /\ k = "decimal64" /\ ~first
-             \/ first /\ k = "decimal64" /\ L.fd \notin 1..18
+      \* a substatement that belongs to the definition of the base only, on a reference to a typedef (fraction-digits on a
+      \* decimal64 typedef): whether the statement is refused or ignored is not judged; if it compiles, the derived type
+      \* may not accept what its base rejects (sub: only an upper bound of the value space is prescribed)
+      inert == L.fd # 0 /\ k = "decimal64" /\ ~first
+      odd == \/ first /\ k = "decimal64" /\ L.fd \notin 1..18
              \/ first /\ k = "enumeration" /\ L.enums = << >>
              \/ first /\ k = "union" /\ L.members = << >>
              \/ first /\ k = "identityref" /\ L.idbase = NoId
@@ -309,6 +313,7 @@ ApplyLevel(ch, t, L, first) ==
                        !.lparts = ln.parts,
                        !.ll = IF L.len = << >> THEN @ ELSE Append(@, [parts |-> ln.parts, msg |-> L.lmsg, tag |-> L.ltag]),
                        !.pats = @ \o L.pats,
+                       !.sub = inert \/ @,
                        !.hasDef = L.hasDef \/ @,
                        !.def = IF L.hasDef THEN L.def ELSE @]
       \* decimal64 parts exactly one unit apart hold the same values as one part; whether a derived
@@ -324,8 +329,8 @@ ApplyLevel(ch, t, L, first) ==
      ELSE IF ~ms.ok THEN Res(FALSE, ms.j, "member:" \o ms.why, t)
      ELSE IF ~rn.ok THEN Res(FALSE, rn.syn, "range:" \o rn.why, t)
      ELSE IF ~ln.ok THEN Res(FALSE, ln.syn, "length:" \o ln.why, t)
-     ELSE IF badDef THEN Res(FALSE, ms.j /\ defJ /\ ~lnBig, "default-rejected", t3)
-     ELSE Res(TRUE, ms.j /\ defJ /\ ~lnBig, "ok", t3)
+     ELSE IF badDef THEN Res(FALSE, ms.j /\ defJ /\ ~lnBig /\ ~t3.sub, "default-rejected", t3)
+     ELSE Res(TRUE, ms.j /\ defJ /\ ~lnBig /\ ~t3.sub, "ok", t3)
 CompileMembers(ch, members, i) ==
   IF i > Len(members) THEN Res(TRUE, TRUE, "ok", << >>)
   ELSE LET r == CompileChain([members[i] EXCEPT !.idents = ch.idents, !.mod = ch.mod]) IN
